@@ -453,6 +453,16 @@ int main(int argc, char** argv) {
             int ascii = 1; for (unsigned i = 0; i < ln; ++i) if ((unsigned char)in[i] >= 0x80) ascii = 0;
             if (ascii ? (d_nfkd_calls != before || rr != ln || memcmp(norm, in, ln + 1)) : (d_nfkd_calls != before + 1 || d_nfkd_arg != in)) {
                 printf("REPRODUCED: utf8_nfkd_lazy: normaliser called %u time(s) for a %s string of %u bytes\n", d_nfkd_calls - before, ascii ? "pure ASCII" : "non-ASCII", ln); fails++; }
+            /* lazy NFKD at the buffer boundary: pure-ASCII strings around POLYSEED_STR_SIZE are truncated to SIZE-1 bytes, never written past */
+            if ((RNDI() & 7) == 0) {
+                static struct { polyseed_str norm; unsigned char guard[16]; } g; unsigned lb = POLYSEED_STR_SIZE - 16 + RNDI() % 64;
+                for (unsigned i = 0; i < lb; ++i) in[i] = (char)('a' + RNDI() % 26);
+                in[lb] = 0; memset(&g, 0x5A, sizeof g);
+                unsigned bf = d_nfkd_calls; size_t r2 = utf8_nfkd_lazy(in, g.norm); size_t want = lb < POLYSEED_STR_SIZE - 1 ? lb : POLYSEED_STR_SIZE - 1;
+                int gbad = 0; for (unsigned i = 0; i < sizeof g.guard; ++i) if (g.guard[i] != 0x5A) gbad = 1;
+                if (gbad || r2 != want || d_nfkd_calls != bf || memcmp(g.norm, in, want) || g.norm[want] != 0) {
+                    printf("REPRODUCED: utf8_nfkd_lazy on a pure-ASCII string of %u bytes returns %zu (expected %zu)%s\n", lb, r2, want, gbad ? " and writes past the polyseed_str" : ""); fails++; }
+            }
             /* comparers */
             char key[24] = {0}, elm[24] = {0}; static const unsigned char ac[] = { 'a', 'b', 'c', 0xCC, 0x81 };
             unsigned lk = RNDI() % 9, le = RNDI() % 9;
